@@ -207,7 +207,7 @@ def oracle(seed, tier):
                 break
         if len(samples) < 2:
             samples.append({"world": w, "cmd": lines[1], "answer": out[1][:80]})
-    return {"violations": viol[:20], "summary": {"cases": cases, "violations": len(viol), "nontrivial": nontriv, "input_distribution": dist}, "samples": samples}
+    return {"violations": trim_violations(viol, 20), "summary": {"cases": cases, "violations": len(viol), "nontrivial": nontriv, "input_distribution": dist}, "samples": samples}
 
 
 def correspondence(seed, tier):
